@@ -95,6 +95,8 @@ thread_local! {
     /// the sequential context of this thread; engine threads spawned from it (search, timer) adopt the same one
     static SEQ: RefCell<Option<SharedSeq>> = const { RefCell::new(None) };
     static SCHED_ME: Cell<Option<usize>> = const { Cell::new(None) };
+    /// the execution (sched::run call) this thread was registered in
+    static SCHED_EPOCH: Cell<u64> = const { Cell::new(0) };
 }
 
 /// hand-over slot parent -> freshly spawned child (at most one unregistered child exists at any time, see will_spawn)
@@ -150,7 +152,7 @@ pub fn emit(part: bool, text: String) {
         }
         return;
     }
-    if let Some(me) = SCHED_ME.with(|m| m.get()) {
+    if let Some(me) = sched_me() {
         let mut g = lock();
         if let Some(s) = g.as_mut() {
             if part {
@@ -189,6 +191,8 @@ pub struct Th {
     /// something the hooks do not see - an un-hooked join, lock or channel wait. The controller schedules the others;
     /// the mark is cleared when the thread reaches its next point.
     pub outside: bool,
+    /// kernel thread id (Linux; 0 if unknown): lets the controller see whether the baton holder is asleep in the kernel
+    pub tid: u32,
 }
 
 #[derive(Default)]
@@ -207,6 +211,48 @@ pub struct Sched {
     /// polls seen by each thread index after the flag it polls was observed false... (see sched.rs)
     pub events: Vec<(usize, &'static str)>,
     pub record_events: bool,
+    /// identifies the execution (sched::run call) this state belongs to
+    pub epoch: u64,
+}
+
+/// kernel id of the calling thread, read from /proc/thread-self ("<pid>/task/<tid>"); 0 where that does not exist
+pub fn os_tid() -> u32 {
+    std::fs::read_link("/proc/thread-self").ok().and_then(|p| p.file_name().and_then(|f| f.to_str().and_then(|t| t.parse().ok()))).unwrap_or(0)
+}
+
+/// scheduling state letter of a thread of this process (R running/runnable, S sleeping, D disk wait ...), if readable
+pub fn os_thread_state(tid: u32) -> Option<char> {
+    if tid == 0 {
+        return None;
+    }
+    let t = std::fs::read_to_string(format!("/proc/self/task/{}/stat", tid)).ok()?;
+    // "<tid> (<comm>) <state> ...": comm may contain spaces and parentheses, the state follows the LAST ')'
+    t[t.rfind(')')? + 1..].trim_start().chars().next()
+}
+
+pub static NEXT_EPOCH: std::sync::atomic::AtomicU64 = std::sync::atomic::AtomicU64::new(1);
+
+/// A thread left over from an abandoned execution (hard deadlock: its threads could not be unwound) must never act in
+/// a later execution of the same process - its index would alias a live thread's. It is parked for good.
+fn stale_forever() -> ! {
+    loop {
+        std::thread::park();
+    }
+}
+
+/// this thread's index in the running execution; None if it is not a scheduled thread
+fn sched_me() -> Option<usize> {
+    let me = SCHED_ME.with(|m| m.get())?;
+    let mine = SCHED_EPOCH.with(|e| e.get());
+    let g = lock();
+    match g.as_ref() {
+        Some(s) if s.epoch == mine => Some(me),
+        // another execution is running, or none at all (the one this thread belonged to is over): a leftover
+        _ => {
+            drop(g);
+            stale_forever()
+        }
+    }
 }
 
 pub static S: Mutex<Option<Sched>> = Mutex::new(None);
@@ -217,7 +263,8 @@ pub fn lock() -> MutexGuard<'static, Option<Sched>> {
 }
 
 fn park(kind: Park, name: &'static str) {
-    let Some(me) = SCHED_ME.with(|m| m.get()) else { return };
+    let Some(me) = sched_me() else { return };
+    let my_epoch = SCHED_EPOCH.with(|e| e.get());
     let mut g = lock();
     match g.as_mut() {
         Some(s) if s.active => {
@@ -236,6 +283,10 @@ fn park(kind: Park, name: &'static str) {
     loop {
         g = CV.wait(g).unwrap_or_else(|e| e.into_inner());
         match g.as_ref() {
+            Some(s) if s.epoch != my_epoch => {
+                drop(g);
+                stale_forever()
+            }
             Some(s) if s.active => {
                 if s.current == Some(me) {
                     break;
@@ -279,7 +330,7 @@ pub fn will_spawn() {
         *h = Some(a);
         return;
     }
-    if SCHED_ME.with(|m| m.get()).is_none() {
+    if sched_me().is_none() {
         return;
     }
     let mut g = lock();
@@ -305,7 +356,7 @@ pub fn timer_override(t: Duration) -> Duration {
         seq_lock(&a).budgets.push(t.as_millis());
         return Duration::ZERO;
     }
-    if SCHED_ME.with(|m| m.get()).is_some() {
+    if sched_me().is_some() {
         let mut g = lock();
         if let Some(s) = g.as_mut() {
             s.budgets.push(t.as_millis());
@@ -337,9 +388,10 @@ impl ThreadScope {
             let mut g = lock();
             if let Some(s) = g.as_mut() {
                 if s.active {
-                    s.threads.push(Th { name, std_id: std::thread::current().id(), park: None, finished: false, panicked: false, outside: false });
+                    s.threads.push(Th { name, std_id: std::thread::current().id(), park: None, finished: false, panicked: false, outside: false, tid: os_tid() });
                     let idx = s.threads.len() - 1;
                     SCHED_ME.with(|m| m.set(Some(idx)));
+                    SCHED_EPOCH.with(|e| e.set(s.epoch));
                     if name != "main" {
                         s.expected_spawns -= 1;
                     }
@@ -364,9 +416,10 @@ impl Drop for ThreadScope {
             return;
         }
         let me = SCHED_ME.with(|m| m.take());
+        let my_epoch = SCHED_EPOCH.with(|e| e.get());
         let mut g = lock();
         if let (Some(s), Some(me)) = (g.as_mut(), me) {
-            if me < s.threads.len() {
+            if s.epoch == my_epoch && me < s.threads.len() {
                 s.threads[me].finished = true;
                 if s.record_events {
                     s.events.push((me, "exit"));
@@ -452,7 +505,7 @@ pub fn on_node(flag: &AtomicBool, table: &mut crate::search::TranspositionTable,
     if seq {
         return;
     }
-    if SCHED_ME.with(|m| m.get()).is_some() {
+    if sched_me().is_some() {
         {
             let mut g = lock();
             if let Some(s) = g.as_mut() {
@@ -484,7 +537,7 @@ impl Iterator for Lines {
         if let Some(a) = my_seq() {
             return seq_lock(&a).input.pop_front().map(Ok);
         }
-        if SCHED_ME.with(|m| m.get()).is_some() {
+        if sched_me().is_some() {
             park(Park::Input, "stdin");
             let mut g = lock();
             return match g.as_mut() {
